@@ -197,6 +197,9 @@ def decide(prop: str, vres: dict, kani: dict, tier: str, seed: int, t0: float, m
         if fn in fns_serving or u['what'].startswith('fn '):
             # a contract that matches no function: only relevant if its labels serve this property -> conservative
             undecided.append('lost contract anchor: %s (%s)' % (u['what'], u.get('src')))
+    for e in rep.get('external_body', []):
+        if e.get('sha256') and not e.get('unchanged') and e['fn'] in fns_serving:
+            undecided.append('assumed (external_body) function %s changed: its contract is no longer backed by the pinned text' % e['fn'])
     for o in rep.get('outlines', []):
         if not o['unchanged'] and o['fn'] in fns_serving:
             undecided.append('unverified (outlined) region changed in %s lines %s' % (o['fn'], o['lines']))
